@@ -347,7 +347,8 @@ def _shrink_candidates(x):
                 yield x[:i] + [c] + x[i + 1 :]
     elif isinstance(x, dict):
         for k in list(x):
-            if not k.startswith("_"):
+            # a path is tied to its tree: never shrink path texts, positions or modes on their own
+            if not k.startswith("_") and k not in ("xp", "xpath", "expr", "pos", "mode", "base", "steps", "op"):
                 for c in _shrink_candidates(x[k]):
                     y = dict(x)
                     y[k] = c
